@@ -157,12 +157,20 @@ func runC04Deep(r *Run, rng *Rng, replay string) {
 		}
 		// the generator above only produces accepted codes when wf, and a literal exactly when needed
 		full := append(append([]byte{}, buf...), rng.Bytes(rng.Pick(0, 0, 4, 8))...)
-		out, _ := decodeCanon(dis, full)
+		out, dec := decodeCanon(dis, full)
 		r.Case(c04DeepLine("inst", fm, op, f, lit), out)
 		r.Count("deep.inst." + fm)
 		r.Checked("deep-roundtrip")
 		if !strings.HasPrefix(out, "ok ") {
 			r.Failf("C04.roundtrip."+fm, c04DeepLine("inst", fm, op, f, lit), "well-formed description does not decode: %s (bytes %s)", out, hexb(full))
+		} else if dec != nil && dec.ByteSize != len(buf) {
+			// the encoding occupies len(buf) bytes (one shared literal dword at most)
+			r.Failf("C04.roundtrip."+fm, c04DeepLine("inst", fm, op, f, lit), "size %d, but the instruction was encoded in %d bytes (%s)", dec.ByteSize, len(buf), hexb(buf))
+		} else if dec != nil {
+			// decode(b) = decode(b[:size]): bytes behind the instruction are never read
+			if out2, _ := decodeCanon(dis, buf); out2 != out {
+				r.Failf("C04.prefix."+fm, c04DeepLine("inst", fm, op, f, lit), "decode of the exact %d bytes gives %s, with trailing bytes %s", len(buf), out2, out)
+			}
 		}
 	}
 }
